@@ -78,6 +78,14 @@ fn br_element(rng: &mut Rng, style: u8, i: usize, closed: bool) -> Vec<String> {
 }
 
 fn gen_bracket_break(rng: &mut Rng, n: usize, depth: usize) -> BracketBreak {
+    if depth == 0 && rng.chance(1, 16) {
+        // an index expression stays on one line: the bad token follows the index on the same line
+        let a = rng.below(90);
+        let tok = *rng.pick(&["7", "then", "else", ")", "}", ","]);
+        let lines = vec![format!("q{n} = v{n}[{a} {tok}]")];
+        let kind = format!("index:{}:same-line", if tok == "7" { "elem-after-missing-comma" } else { tok });
+        return BracketBreak { lines, bad_rel: 0, kind, stats: vec!["bracket=index".into(), "bracket_place=same-line".into()] };
+    }
     let c = rng.below(BR_CONSTRUCTS);
     let sh = br_shape(rng, c, n);
     let mut stats = vec![format!("bracket={}", sh.name)];
@@ -118,6 +126,10 @@ fn gen_bracket_break(rng: &mut Rng, n: usize, depth: usize) -> BracketBreak {
     if k == 0 && bk == 0 {
         bk = 1 + rng.below(3);
     }
+    if sh.style == 2 && bk == 2 {
+        // `a =` in a parameter list introduces a default value: `=` is not a bad token there
+        bk = if rng.chance(1, 2) { 1 } else { 3 };
+    }
     let same_line = k >= 1 && rng.chance(1, 4);
     // whether the element before the bad token keeps its comma (a missing comma is the break of kind 0)
     let comma_before = bk != 0 && !same_line && rng.chance(1, 2);
@@ -145,7 +157,7 @@ fn gen_bracket_break(rng: &mut Rng, n: usize, depth: usize) -> BracketBreak {
             (w.to_string(), format!("wrong-closer{w}"))
         }
     };
-    let bad_rel;
+    let mut bad_rel;
     if same_line {
         let l = lines.last_mut().unwrap();
         l.push(' ');
@@ -156,6 +168,14 @@ fn gen_bracket_break(rng: &mut Rng, n: usize, depth: usize) -> BracketBreak {
         let ind = if bk == 3 && rng.chance(1, 2) { &oi } else { &ei };
         lines.push(format!("{ind}{tok}"));
         bad_rel = lines.len() - 1;
+        if bk == 2 && k >= 1 && !comma_before {
+            // `<literal>` line break `=`: inside brackets an expression may be continued by `=` on the
+            // next line (`x` / `= 1` assigns), so `=` is accepted as the assignment operator and the
+            // error (`expected target for assignment`) is about the expression before it: the
+            // offending token is that literal (one line, directly above)
+            bad_rel -= 1;
+            stats.push("bracket_assign_target_blamed=yes".into());
+        }
     }
     // the rest of the construct
     if bk != 3 {
